@@ -455,6 +455,13 @@ for _where in ("global", "namespace", "nested", "nsfield", "ns2"):
     VALID_SCOPED.append("@dtor:%s ~Circle()" % _where)
     ILLEGAL += ["@dtor:%s ~Other()" % _where, "@dtor:%s ~geom()" % _where]
 ILLEGAL += ["@dtor:namespace ~geom::Circle()", "@dtor:nested ~Outer()"]
+# digits that are no C literal
+ILLEGAL += ["enum E { A = 09 }", "enum E { A = 1, B = A + 08 }", "enum E { A = 019, B }", "@c enum E { A = 1, B = A * 09 }"]
+VALID_SCOPED += ["enum E { A = 07, B = A + 010 }", "enum E { A = 0, B = 00 }"]
+# a struct holds data: a member function (with or without parameters) is refused (so is a function-pointer member: diagnosed, not supported)
+ILLEGAL += ["struct S { int i; int f(); };", "struct S { int i; int f(void); };", "struct S { int f(int a); };", "@c struct S { int i; double g(void); };",
+            "@c struct S { int i; int f(); };"]
+VALID_SCOPED += ["@c struct S { int i; double d; };", "struct S { int i; double d; };"]
 ILLEGAL = list(dict.fromkeys(ILLEGAL))
 
 
@@ -603,6 +610,18 @@ YAML_MUST_REJECT = [
     (("typemap", 0, "fields", "base"), "other", ("base", "other")),
     (("declarations", 1, "declarations", 0), {"decl": "namespace inner"}, "namespace"),
     (("declarations", 4, "decl"), "typedef nosuchtype Alias", "nosuchtype"),
+    # text after the closing '>' of an instantiation
+    (("declarations", 3, "declarations", 0, "cxx_template", 0, "instantiation"), "<int> junk", ("EOF", "junk")),
+    (("declarations", 3, "declarations", 0, "cxx_template", 1, "instantiation"), "<double>>", ("EOF", ">")),
+    (("declarations", 3, "declarations", 0, "cxx_template", 0, "instantiation"), "<int", ("GT", ">", "EOF")),
+    # typemap fields: only the documented field names, not whatever happens to be an attribute of the implementation
+    (("typemap", 0, "fields", "update"), "x", "update"),
+    (("typemap", 0, "fields", "name"), "other::Extra2", "name"),
+    (("typemap", 0, "fields", "clone_as"), "x", "clone_as"),
+    (("typemap", 0, "fields", "defaults"), "x", "defaults"),
+    (("typemap", 0, "fields", "_order"), "x", "_order"),
+    (("typemap", 0, "fields", "compute_flat_name"), "x", "compute_flat_name"),
+    (("typemap", 0, "fields", "nosuchfield"), "x", "nosuchfield"),
 ]
 
 
